@@ -197,7 +197,14 @@ func build(sc *scenario) (*template.Template, error) {
 	return template.New("root").ParseFromTrustedTemplate(tconv.TrustedTemplateFromStringKnownToSatisfyTypeContract(sc.Text))
 }
 
+// preResolved, when set, maps member names to handles obtained by Lookup BEFORE the concurrent phase (the set is fully
+// constructed then): Execute on such a handle involves no Lookup, hence none of the mutex synchronisation that a Lookup
+// made inside the goroutine would add by accident.
 func doCall(root *template.Template, c call, data interface{}) (res string) {
+	return doCallPre(root, nil, c, data)
+}
+
+func doCallPre(root *template.Template, pre map[string]*template.Template, c call, data interface{}) (res string) {
 	defer func() {
 		if p := recover(); p != nil {
 			res = "panic:" + fmt.Sprint(p)
@@ -219,7 +226,10 @@ func doCall(root *template.Template, c call, data interface{}) (res string) {
 		h, err := root.ExecuteTemplateToHTML(c.Name, data)
 		return fin(h.String(), err)
 	case "exec", "exechtml":
-		t := root.Lookup(c.Name)
+		t, ok := pre[c.Name]
+		if !ok {
+			t = root.Lookup(c.Name)
+		}
 		if t == nil {
 			return "nil"
 		}
@@ -423,6 +433,13 @@ func main() {
 		runtime.GOMAXPROCS(sc.Procs)
 		for rep := 0; rep < reps; rep++ {
 			root, _ := build(&sc)
+			var pre map[string]*template.Template
+			if rep%2 == 1 {
+				pre = map[string]*template.Template{}
+				for _, m := range sc.Members {
+					pre[m] = root.Lookup(m)
+				}
+			}
 			results := make([][]string, len(sc.Threads))
 			var wg sync.WaitGroup
 			gate := make(chan struct{})
@@ -432,7 +449,7 @@ func main() {
 					defer wg.Done()
 					<-gate
 					for _, c := range sc.Threads[t] {
-						results[t] = append(results[t], doCall(root, c, data))
+						results[t] = append(results[t], doCallPre(root, pre, c, data))
 					}
 				}(t)
 			}
@@ -521,6 +538,13 @@ func replayOne(hexDesc, repsS string) {
 			fmt.Println("unparsable")
 			return
 		}
+		var pre map[string]*template.Template
+		if rep%2 == 1 {
+			pre = map[string]*template.Template{}
+			for _, m := range sc.Members {
+				pre[m] = root.Lookup(m)
+			}
+		}
 		results := make([][]string, len(sc.Threads))
 		var wg sync.WaitGroup
 		gate := make(chan struct{})
@@ -530,7 +554,7 @@ func replayOne(hexDesc, repsS string) {
 				defer wg.Done()
 				<-gate
 				for _, c := range sc.Threads[t] {
-					results[t] = append(results[t], doCall(root, c, data))
+					results[t] = append(results[t], doCallPre(root, pre, c, data))
 				}
 			}(t)
 		}
